@@ -53,10 +53,14 @@ where
         let _ = verif_hooks::take_plan::<F>();
         let outcome = circuit.outcome.borrow().clone();
         match r {
+            Err(p) if p.contains("usable_rows") && k < 19 => {
+                k += 1;
+                continue;
+            }
             Err(p) => return MockRun { verdict: Err(format!("panic: {p}")), outcome, prover: None, k },
             Ok(Err(e)) => {
                 let msg = format!("{e:?} {}", outcome.error.clone().unwrap_or_default());
-                if msg.contains("NotEnoughRows") && k < 18 {
+                if (msg.contains("NotEnoughRows") || msg.contains("usable_rows")) && k < 18 {
                     k += 1;
                     continue;
                 }
@@ -164,11 +168,23 @@ pub struct Case {
 pub fn gen_cases(s: &SetInfo, ctx: &Ctx) -> Vec<Case> {
     let mut rng = ctx.rng(&format!("field:{}", s.name));
     let quick = ctx.quick();
-    let bv = boundary_values(s, &mut rng);
+    let mut bv = boundary_values(s, &mut rng);
+    if quick {
+        bv.retain(|(n, _)| !matches!(n.as_str(), "2" | "half" | "base+1" | "base^2" | "base^(n-1)+1"));
+    }
     let m = &s.m;
     let mut cases: Vec<Case> = vec![];
     let base = BigUint::one() << s.log2_base;
     let mut push = |kind: &str, ops: Vec<Op>| cases.push(Case { kind: kind.into(), ops });
+
+    // ---- regression cases of the six defects repaired in /repo (findings/C05.json)
+    push("regression", vec![fop!("fix", "0x1"), fop!("in", "0x7"), fop!("mulk", 0, 1, "0x3"), fop!("mulk", 1, 0, "0x3"), fop!("pi", 2), fop!("pi", 3)]);
+    push("regression", vec![fop!("in", "0x5"), fop!("mulc", 0, hex(&(&(BigUint::one() << s.log2_base) / BigUint::from(1000u32)))), fop!("mulc", 1, hex(&(&(BigUint::one() << s.log2_base) / BigUint::from(1000u32)))), fop!("pi", 2)]);
+    push("regression", vec![fop!("in", hex(&(BigUint::one() << s.log2_base))), fop!("bits", 0, "-", 0), fop!("frombits", 1), fop!("asserteq", 0, 2)]);
+    push("regression", vec![fop!("in", "0x5"), fop!("bytes", 0, "-"), fop!("bits", 0, s.num_bits + 3, 1), fop!("bits", 0, s.num_bits + 3, 0)]);
+    push("regression", vec![fop!("in", "0x40000000"), fop!("chunks", 0, 7, 3)]);
+    push("regression", vec![fop!("in", "0x40000000"), fop!("chunks", 0, 7, 5)]);
+    push("regression", vec![fop!("in", "0x0"), fop!("chunks", 0, s.log2_base / 4, 4 * s.nb_limbs + 3)]);
 
     // ---- unary operations on every boundary value (witness and fixed)
     for (i, (_, v)) in bv.iter().enumerate() {
@@ -230,7 +246,7 @@ pub fn gen_cases(s: &SetInfo, ctx: &Ctx) -> Vec<Case> {
     // ---- binary operations on boundary pairs
     for (i, (_, a)) in bv.iter().enumerate() {
         for (j, (_, b)) in bv.iter().enumerate() {
-            if quick && (i * 7 + j * 3) % 5 != 0 && i != j {
+            if quick && (i * 7 + j * 3) % 11 != 0 && i != j {
                 continue;
             }
             let sa = if (i + j) % 4 == 3 { "fix" } else { "in" };
@@ -556,11 +572,11 @@ fn faults<F: CircuitField>(s: &SetInfo, rng: &mut ChaCha8Rng, quick: bool) -> Ve
     let r: F = mzkh::fe_from_big::<F>(&rng.gen_biguint(250));
     let mut v: Vec<(String, Box<dyn Fn(F) -> F>)> = vec![
         ("+1".into(), Box::new(|x| x + F::ONE)),
-        ("-1".into(), Box::new(|x| x - F::ONE)),
         ("+base".into(), Box::new(move |x| x + base)),
         ("random".into(), Box::new(move |x| x + r)),
     ];
     if !quick {
+        v.push(("-1".into(), Box::new(|x| x - F::ONE)));
         v.push(("-base".into(), Box::new(move |x| x - base)));
         v.push(("+m.limb0".into(), Box::new(move |x| x + m0)));
         v.push(("+m.limb1".into(), Box::new(move |x| x + m1)));
@@ -648,7 +664,7 @@ where
         let Some(run) = run_case::<F, K>(ctx, &s, case) else { continue };
         if run.verdict == Ok(true) && case.ops.iter().any(|o| o.name == "pi") {
             let lim = if ctx.quick() { 3 } else { 30 };
-            if done_wrong < lim && matches!(case.kind.as_str(), "binary" | "unary" | "random" | "chain-double") {
+            if done_wrong < lim && matches!(case.kind.as_str(), "binary" | "unary" | "random" | "chain-double" | "regression") {
                 done_wrong += 1;
                 wrong_public::<F, K>(ctx, &s, case);
             }
@@ -663,11 +679,12 @@ where
             }
         }
         let per_kind = if ctx.quick() { 1 } else { 6 };
-        if run.verdict == Ok(true) && matches!(case.kind.as_str(), "binary" | "div" | "unnormalised" | "chain-sub" | "inv" | "lc") {
+        let tamper_kinds: &[&str] = if ctx.quick() { &["binary", "div", "unnormalised"] } else { &["binary", "div", "unnormalised", "chain-sub", "inv", "lc"] };
+        if run.verdict == Ok(true) && tamper_kinds.contains(&case.kind.as_str()) {
             let e = done_tamper.entry(case.kind.clone()).or_insert(0);
             if *e < per_kind {
                 *e += 1;
-                tamper_sweep::<F, K>(ctx, &s, case, if ctx.quick() { 10 } else { 60 });
+                tamper_sweep::<F, K>(ctx, &s, case, if ctx.quick() { 6 } else { 60 });
             }
         }
     }
